@@ -42,6 +42,8 @@ inductive FinKind where
   | keep       -- the loop's own result, unchanged
   | closeErr   -- the error of Close
   | both       -- "Multiple errors faced": the loop's error merged with the error of Close
+  | wrapped    -- the loop's error inside a NEW error value although Close did not fail (`errors.Join(err, nil)`): errors.Is
+               -- still sees it, errutil.IsCtxError (which compares the Cause) does not — never produced by the code as it is
   deriving DecidableEq, Repr, Inhabited
 
 structure Fin where
@@ -68,7 +70,7 @@ def finishOf (k : Kind) (r : RunRes) (cl : CloseOut) : Fin :=
 /-- what `Run` returns to its caller, as the classes the harness sees: `none` = an injected fault is reported -/
 def finalClass (k : Kind) (r : RunRes) (cl : CloseOut) : Option RunRes :=
   match (finishOf k r cl).res with
-  | .keep => if r = .errOther then none else some r
+  | .keep | .wrapped => if r = .errOther then none else some r
   | .closeErr | .both => none
 
 /-- the loop state is one whose next iteration touches the ammo file (everything but the replay of preloaded ammo) -/
